@@ -38,10 +38,14 @@ type scripted struct {
 	readMu  map[uint16]*[]rmsg
 	readErr map[uint16]error
 	used map[uint32]bool // every TSN ever put into a packet for the endpoint
+	arwndNow uint32     // a_rwnd to advertise in honest SACKs (0: arwnd)
 }
 
+// sackCum is the cumulative point the endpoint currently has for its own data.
+func (p *scripted) sackCum(a *Association) uint32 { return a.cumulativeTSNAckPoint }
+
 func newScripted(m *Sim, cfg epCfg, ourIL, ourZC bool) *scripted {
-	p := &scripted{m: m, cfg: cfg, tag: 0xABCD0001, tsn0: 0xFFFFFFFA, ourIL: ourIL, ourZC: ourZC, arwnd: 1 << 20,
+	p := &scripted{m: m, cfg: cfg, tag: 0xABCD0001, tsn0: 0xFFFFFFFF, ourIL: ourIL, ourZC: ourZC, arwnd: 1 << 20,
 		ssn: map[uint16]uint16{}, mid: map[uint16]uint32{}, recvd: map[uint32]*wChunk{}, readMu: map[uint16]*[]rmsg{}, readErr: map[uint16]error{}}
 	p.tsn = p.tsn0
 	return p
@@ -285,7 +289,11 @@ func (p *scripted) ackAll() []*wpkt {
 		gaps = append(gaps, wGap{uint16(tsns[i] - p.cum), uint16(tsns[k] - p.cum)})
 		i = k + 1
 	}
-	return p.inject(p.pkt(chunkBytes(wSACK, 0, wSackVal(p.cum, p.arwnd, gaps, nil))))
+	rw := p.arwnd
+	if p.arwndNow != 0 {
+		rw = p.arwndNow
+	}
+	return p.inject(p.pkt(chunkBytes(wSACK, 0, wSackVal(p.cum, rw, gaps, nil))))
 }
 
 // startReader spawns a reader on the endpoint's stream sid (opened locally).
